@@ -163,7 +163,11 @@ struct Cmd {
 }
 impl Command for Cmd {
     fn priority(&self) -> Priority {
-        if self.init { Priority::Init } else { Priority::Basic(0) }
+        match self.parent {
+            Prior::None => Priority::Init,
+            Prior::Single(_) => Priority::Basic(0),
+            Prior::Merge(..) => Priority::Merge,
+        }
     }
     fn id(&self) -> CmdId {
         self.id
@@ -331,6 +335,17 @@ fn do_step(w: &mut World, st: &Value) -> Result<StepRes, String> {
             let l = w.loc(st.u("s"), st.u("i"));
             let stg = w.prov.get_storage(w.graph.ok_or("no graph")?).map_err(e)?;
             w.per = Some(stg.get_linear_perspective(l).map_err(e)?);
+            w.per_ids.clear();
+            w.cps.clear();
+        }
+        "open_merge" => {
+            // left = (s, i); right = (v, j); the braid is the index the last write_facts returned
+            let l = w.loc(st.u("s"), st.u("i"));
+            let r = w.loc(st.u("v"), st.u("j"));
+            let lca = w.loc(1, 1);
+            let braid = w.last_index.take().ok_or("no braid index")?;
+            let stg = w.prov.get_storage(w.graph.ok_or("no graph")?).map_err(e)?;
+            w.per = Some(stg.new_merge_perspective(l, r, lca, PolicyId::new(0), braid).map_err(e)?);
             w.per_ids.clear();
             w.cps.clear();
         }
